@@ -1251,10 +1251,54 @@ def inventory(ctx):
     root_ = unparse(walk[0].iter.args[0]) if walk and walk[0].iter.args else None
     ctx.check(root_ in ("self.location", "os.path.abspath(self.location)", "os.path.normpath(self.location)", "os.path.realpath(self.location)"), walk[0] if walk else gi, "the whole store is walked (root %s)" % root_,
               "the inventory walks %s, not the store location" % root_)
-    ds = _local_def(gi, "dirsize")
-    ctx.check(bool(ds) and unparse(ds[0].value) == "sum((os.path.getsize(fn) for fn in full_filenames))", ds[0] if ds else gi, "entry size = sum over all files of the entry directory")
-    ff = _local_def(gi, "full_filenames")
-    ctx.check(bool(ff) and unparse(ff[0].value) == "[os.path.join(dirpath, fn) for fn in filenames]", ff[0] if ff else gi, "all files of the directory are counted")
+    # entry size = the sum of getsize(join(dirpath, f)) over EVERY file name of the walk's listing (no filter, no slice)
+    listing = walk[0].target.elts[2].id if walk and isinstance(walk[0].target, ast.Tuple) and len(walk[0].target.elts) == 3 and isinstance(walk[0].target.elts[2], ast.Name) else None
+    dpath = walk[0].target.elts[0].id if listing and isinstance(walk[0].target.elts[0], ast.Name) else None
+    sums = [c for c in calls_in(gi) if call_name(c) == "sum" and len(c.args) == 1 and isinstance(c.args[0], (ast.GeneratorExp, ast.ListComp)) and len(c.args[0].generators) == 1
+            and any(call_name(x) == "os.path.getsize" for x in ast.walk(c.args[0].elt) if isinstance(x, ast.Call))]
+    def joined(e, var):
+        return isinstance(e, ast.Call) and call_name(e) == "os.path.join" and len(e.args) == 2 and dotted(e.args[0]) == dpath and dotted(e.args[1]) == var
+    ok_size = False
+    why = "no sum of getsize over the listing"
+    for c in sums:
+        comp = c.args[0]
+        gen = comp.generators[0]
+        var = gen.target.id if isinstance(gen.target, ast.Name) else None
+        elt = comp.elt
+        arg = elt.args[0] if isinstance(elt, ast.Call) and call_name(elt) == "os.path.getsize" and elt.args else None
+        if gen.ifs or arg is None or var is None:
+            why = "the sum is filtered or not a plain getsize: %s" % unparse(c, 80)
+            continue
+        src = gen.iter
+        if dotted(src) == listing and joined(arg, var):
+            ok_size = True
+        elif isinstance(src, ast.Name) and dotted(arg) == var:
+            d_ = _local_def(gi, src.id)
+            if len(d_) == 1 and isinstance(d_[0].value, (ast.ListComp, ast.GeneratorExp)) and len(d_[0].value.generators) == 1:
+                g2 = d_[0].value.generators[0]
+                v2 = g2.target.id if isinstance(g2.target, ast.Name) else None
+                if not g2.ifs and dotted(g2.iter) == listing and joined(d_[0].value.elt, v2):
+                    ok_size = True
+                else:
+                    why = "the files summed are `%s`, not every file of the listing" % unparse(d_[0].value, 80)
+        else:
+            why = "the sum runs over `%s`" % unparse(src, 60)
+    ctx.check(ok_size, sums[0] if sums else gi, "entry size = sum of getsize(join(dirpath, f)) over every file of the entry directory", "entry size is not the size of all files of the entry: %s" % why)
+    # ... measured NOW for every entry: the size recorded for an item is that sum and nothing remembered from an earlier listing
+    ggi = cfg_of(gi)
+    for c in [c for c in calls_in(gi) if call_name(c) == "CacheItemInfo" and len(c.args) >= 2]:
+        sz = c.args[1]
+        if isinstance(sz, ast.Call) and sz in sums:
+            ctx.ok(c, "the recorded size is the sum itself")
+            continue
+        nm = dotted(sz)
+        defs_ = [n for n in ast.walk(gi) if isinstance(n, (ast.Assign, ast.AugAssign, ast.For, ast.With)) and nm in stores_to(n)] if nm else []
+        tuple_defs = [n for n in ast.walk(gi) if isinstance(n, ast.Assign) and isinstance(n.targets[0], (ast.Tuple, ast.List)) and nm in [dotted(e) for e in n.targets[0].elts]] if nm else []
+        fresh = [n for n in defs_ if isinstance(n, ast.Assign) and isinstance(n.value, ast.Call) and n.value in sums]
+        ok_ = bool(nm) and bool(fresh) and len(fresh) == len(defs_) and not tuple_defs and ggi.every_path_to(ggi.nodes_of(c), ggi.nodes_of_all(fresh))
+        ctx.check(ok_, c, "the size recorded for an entry is measured on this listing, on every path",
+                  "the size recorded for an entry (`%s`) does not come from a fresh measurement on every path: an entry rewritten since an earlier listing keeps its old size, and reduce_size "
+                  "selects from stale totals" % unparse(sz, 40))
     la = [a for a in _local_def(gi, "last_access") if isinstance(a.value, ast.Call) and call_name(a.value) == "os.path.getatime"]
     ctx.check(len(la) == 2 and dotted(la[0].value.args[0]) == "output_filename" and _path_const(la[0].value.args[0], gi) == "output.pkl", la[0] if la else gi, "last access = atime of output.pkl (fallback: the directory)")
     if walk:
